@@ -1522,6 +1522,15 @@ class AggregateFunction(Function):
             yield from criterion.nodes_()
 
     @builder
+    def replace_table(  # type:ignore[return]
+        self, current_table: "Table" | None, new_table: "Table" | None
+    ) -> "Self":
+        self.args = [param.replace_table(current_table, new_table) for param in self.args]
+        self._filters = [
+            criterion.replace_table(current_table, new_table) for criterion in self._filters
+        ]
+
+    @builder
     def filter(self, *filters: Any) -> AnalyticFunction:  # type:ignore[return]
         self._include_filter = True
         self._filters = self._filters + list(filters)
@@ -1562,6 +1571,23 @@ class AnalyticFunction(AggregateFunction):
         for term, _ in self._orderbys:
             if isinstance(term, Node):
                 yield from term.nodes_()
+
+    @builder
+    def replace_table(  # type:ignore[return]
+        self, current_table: "Table" | None, new_table: "Table" | None
+    ) -> "Self":
+        self.args = [param.replace_table(current_table, new_table) for param in self.args]
+        self._filters = [
+            criterion.replace_table(current_table, new_table) for criterion in self._filters
+        ]
+        self._partition = [
+            term.replace_table(current_table, new_table) if isinstance(term, Term) else term
+            for term in self._partition
+        ]
+        self._orderbys = [
+            (term.replace_table(current_table, new_table) if isinstance(term, Term) else term, order)
+            for term, order in self._orderbys
+        ]
 
     @builder
     def over(self, *terms: Any) -> "Self":  # type:ignore[return]
